@@ -66,6 +66,9 @@ func execC07(e *env, c *Case) (o outcome) {
 		return
 	}
 	exp, err := onlyField(md, fds, c.Text)
+	if c.OddText {
+		exp, err = nil, nil // one-sided: see c07Once
+	}
 	if err != nil {
 		o.inconcl = "bad case: reference rejects the capture: " + err.Error()
 		return
@@ -122,6 +125,28 @@ func c07Once(e *env, c *Case, o *outcome, md protoreflect.MessageDescriptor, fds
 		return false
 	}
 	got := project(calls[0].msg, fds)
+	if c.OddText {
+		// an odd path text (null, NaN, true, ...) for a typed variable: the
+		// route may be refused, or the field holds what the text converts to
+		// under some proto3-JSON reading - never the competitor's value
+		for _, rd := range refReadings(vschema.NewMsg(md), fds, c.Text) {
+			if proto.Equal(got, project(rd, fds)) {
+				o.distinct = "c07|odd-path-text|" + kindClass(fds[len(fds)-1]) + "|" + c.Via
+				return true
+			}
+		}
+		for _, ch := range []string{"query", "body"} {
+			if t, ok := c.Compete[ch]; ok {
+				if m, err := onlyField(md, fds, t); err == nil && proto.Equal(got, m) {
+					o.add("c07:path-bound-overridden:by="+ch+":odd-path-text", fmt.Sprintf("rule %s %s body=%q: %s %s?%s (competing %s): the path text %q captured for %s (%s) matched the route, but the handler received the competing value %s",
+						c.Rule.Verb, c.Rule.Tmpl, c.Rule.Body, c.Req.Verb, c.Req.Path, queryLabel(c.Req.RawQuery), c.Via, c.Text, c.Field, kindClass(fds[len(fds)-1]), jsonOf(got)))
+					return false
+				}
+			}
+		}
+		o.count("c07_odd_path_text_other_value_(no_claim)")
+		return true
+	}
 	if !proto.Equal(got, exp) {
 		by := "other:" + kindClass(fds[len(fds)-1])
 		if proto.Equal(got, project(vschema.NewMsg(md), fds)) {
@@ -243,6 +268,7 @@ func keyLeaves(p *plan) []leaf {
 
 // c07Extra adds parameters that do not compete for the bound field.
 type c07Extra struct {
+	oddText  string // replace the capture of the variable by this text (typed variables)
 	keys     int    // this many URL parameters in total, on distinct keys as far as the type allows
 	siblings int    // 1..3 query params on same-typed sibling sub-messages
 	sibPos   string // before | after (the competing key)
@@ -311,18 +337,36 @@ func (g *gen) c07Case(p *plan, v pathVar, idx int, qv, bv string, ex c07Extra) (
 			a, e1 := onlyField(p.in, v.fds, t)
 			b, e2 := onlyField(p.in, v.fds, P)
 			if e1 == nil && e2 == nil && !proto.Equal(a, b) {
+				if ex.oddText != "" {
+					// must not coincide with any reading of the odd text
+					clash := false
+					for _, rd := range refReadings(vschema.NewMsg(p.in), v.fds, ex.oddText) {
+						clash = clash || proto.Equal(project(rd, v.fds), a)
+					}
+					if clash {
+						continue
+					}
+				}
 				return t, nil
 			}
 		}
 		return "", fmt.Errorf("no competing value for %s", v.field)
 	}
-	if alt, ok := bytesTextVariant(p.in, v, P, idx); ok {
+	if ex.oddText != "" {
+		if !isSingleStar(v.pat) || v.fds[len(v.fds)-1].Kind() == protoreflect.StringKind || !pathSafe(ex.oddText) {
+			return nil, nil
+		}
+	} else if alt, ok := bytesTextVariant(p.in, v, P, idx); ok {
 		// same bytes in another base64 spelling (std / url-safe alphabet,
 		// padded / unpadded); the expected value stays the protojson reading
 		P = alt
 		texts[v.field] = alt
 	}
 	c := &Case{Prop: "C07", Kind: "c07", Rule: p.rule, Field: v.field, Text: P, Compete: map[string]string{}}
+	if ex.oddText != "" {
+		c.OddText, c.Text = true, ex.oddText
+		texts[v.field] = ex.oddText
+	}
 	q := reqSpec{Verb: reqVerb(p.rule), Path: p.instantiate(texts)}
 	var query []kv
 	if qv != "none" {
@@ -608,11 +652,14 @@ func (g *gen) c07Case(p *plan, v pathVar, idx int, qv, bv string, ex c07Extra) (
 	if ex.keys > 0 {
 		c.Via += fmt.Sprintf(",url-params=%d", ex.keys)
 	}
+	if ex.oddText != "" {
+		c.Via += ",path-text=" + ex.oddText
+	}
 	c.Class = p.rule.bodyShape() + ":" + c.Via
 	return c, nil
 }
 
-const ruleC07 = "every rule of the C03 catalogue with at least one path variable (vf.Req, ComplexRequest and the real larking.testpb annotations incl. Files.UploadDownload; top-level, nested and doubly nested fields; typed, enum, oneof and well-known-type variables; body '*', body <field>, no body). For every variable and several captures: competing, different values for the same field through the query string (proto name, JSON name, the key twice, before / after another key) and / or the body (JSON, protobuf, gzip JSON; body '*' or a body field that contains the variable), all combinations. In addition, for every variable on a nested field: 1-3 query parameters on same-typed sibling sub-messages (vf.Req sub / osub, ComplexRequest nested / oneof_nested; the sibling's field of the same name first) before / after the competing key, x query x body competitors; and for every variable: a repeated query field of 10, 63, 64, 65, 200, 1000 elements next to the competitors. These requests are served 4 times each (query parameters are applied in map order). Oracle: the handler's value of the field equals the protojson value of the path capture, and - for the cases with non-competing parameters on rules without body '*' - the whole message equals the capture(s) plus every parameter the client sent; a request rejected with an error status is allowed. Streaming HTTP rules (HttpBody uploads on client-streaming and bidi methods incl. the real Files.LargeUploadDownload, server-streaming downloads) run the query matrix with every way the handler can obtain the first message (stream.Recv looping to EOF, larking.AsHTTPBodyReader; replies through stream.Send and larking.AsHTTPBodyWriter). The body competitor also comes as application/x-www-form-urlencoded (with / without charset), multipart/form-data, text/plain and application/json; charset=utf-8: whatever the tree accepts must not override the path, a refusal is no claim. Also 13, 14, 20 and 40 URL parameters on distinct keys (one naming the bound field), each request served 20 times. The catalogue includes constant variables ({f=lit}, {f=lit/lit}, typed {f=true}, {e=RED}, the real Messaging.Action {text=action}) and variables of every scalar kind and bytes (top-level and nested) on rules that map a body; bytes captures are spelled std / url-safe, padded / unpadded; bodies carry the competing value or do not name the field at all, with fillers of 0-6000 bytes. Control frames (ping, unsolicited pong) are interleaved before the first and between data frames. WebSocket transport (real loopback listener through larking.NewServer): websocket-kind bindings on bidi methods (vf.Req top-level / nested / typed / bytes / multi-segment variables, body '*' and body field; the real testpb ChatRoom.Chat) with the competing value in the query string, in the first frame and / or in later frames (1-3 frames, each acknowledged by the handler): the first message the handler receives must carry the capture. distinct = (rule, variable, query variant, body variant, sibling / list-size variant | websocket frame variant) of dispatched requests that kept the capture"
+const ruleC07 = "every rule of the C03 catalogue with at least one path variable (vf.Req, ComplexRequest and the real larking.testpb annotations incl. Files.UploadDownload; top-level, nested and doubly nested fields; typed, enum, oneof and well-known-type variables; body '*', body <field>, no body). For every variable and several captures: competing, different values for the same field through the query string (proto name, JSON name, the key twice, before / after another key) and / or the body (JSON, protobuf, gzip JSON; body '*' or a body field that contains the variable), all combinations. In addition, for every variable on a nested field: 1-3 query parameters on same-typed sibling sub-messages (vf.Req sub / osub, ComplexRequest nested / oneof_nested; the sibling's field of the same name first) before / after the competing key, x query x body competitors; and for every variable: a repeated query field of 10, 63, 64, 65, 200, 1000 elements next to the competitors. These requests are served 4 times each (query parameters are applied in map order). Oracle: the handler's value of the field equals the protojson value of the path capture, and - for the cases with non-competing parameters on rules without body '*' - the whole message equals the capture(s) plus every parameter the client sent; a request rejected with an error status is allowed. Streaming HTTP rules (HttpBody uploads on client-streaming and bidi methods incl. the real Files.LargeUploadDownload, server-streaming downloads) run the query matrix with every way the handler can obtain the first message (stream.Recv looping to EOF, larking.AsHTTPBodyReader; replies through stream.Send and larking.AsHTTPBodyWriter). The body competitor also comes as application/x-www-form-urlencoded (with / without charset), multipart/form-data, text/plain and application/json; charset=utf-8: whatever the tree accepts must not override the path, a refusal is no claim. Also 13, 14, 20 and 40 URL parameters on distinct keys (one naming the bound field), each request served 20 times. The catalogue includes constant variables ({f=lit}, {f=lit/lit}, typed {f=true}, {e=RED}, the real Messaging.Action {text=action}) and variables of every scalar kind and bytes (top-level and nested) on rules that map a body; bytes captures are spelled std / url-safe, padded / unpadded; bodies carry the competing value or do not name the field at all, with fillers of 0-6000 bytes. Typed variables also capture odd texts (null, NULL, Null, nil, undefined, NaN, true, false, 0, -0, none, Infinity) next to query / body competitors: the route may be refused or the field holds a proto3-JSON reading of the text, never the competitor. Control frames (ping, unsolicited pong) are interleaved before the first and between data frames. WebSocket transport (real loopback listener through larking.NewServer): websocket-kind bindings on bidi methods (vf.Req top-level / nested / typed / bytes / multi-segment variables, body '*' and body field; the real testpb ChatRoom.Chat) with the competing value in the query string, in the first frame and / or in later frames (1-3 frames, each acknowledged by the handler): the first message the handler receives must carry the capture. distinct = (rule, variable, query variant, body variant, sibling / list-size variant | websocket frame variant) of dispatched requests that kept the capture"
 
 // RunC07 is the path-bound-fields-are-authoritative check.
 func RunC07(r *mon.Run) {
@@ -731,6 +778,15 @@ func RunC07(r *mon.Run) {
 							}
 						}
 					}
+				}
+			}
+			// odd path texts for typed variables, with competitors
+			for ti, t := range []string{"null", "NULL", "Null", "nil", "undefined", "NaN", "true", "false", "0", "-0", "none", "Infinity"} {
+				for ci, comb := range [][2]string{{"proto-name", "none"}, {"none", "json"}, {"json-name", "protobuf"}} {
+					if !r.Thorough() && (ti+ci+ri)%2 == 1 {
+						continue
+					}
+					do(g.c07Case(p, v, 4+ti, comb[0], comb[1], c07Extra{oddText: t}))
 				}
 			}
 			// 13..40 URL parameters on (mostly) distinct keys, one of them
